@@ -122,13 +122,24 @@ ExpectedField(T, f, P, R) == ExpectedOf(Entry(T, f), P, R)
 Expected(T, P, R) == [f \in Fields(T) |-> ExpectedField(T, f, P, R)]
 
 -----------------------------------------------------------------------------
+(* Values.  The codec above is value-blind, and so is the law: a field that is set comes back with its value,
+   whatever the value.  The value that invites a wrong shortcut is the one equal to the default a reader
+   assumes when the parameter is absent ("defaults need not be sent"): the cases therefore carry `dfl`, the set
+   fields that are given exactly that value (ownership EXCLUSIVE with strength 0, deadline infinite, latency
+   budget zero, durability VOLATILE, lease duration 100 s, an empty entity name, ...). *)
+DefaultValued == {"durability", "presentation", "deadline", "latency_budget", "ownership", "liveliness", "time_based_filter",
+                  "reliability", "destination_order", "history", "resource_limits", "lifespan",
+                  "lease_duration", "entity_name", "data_max_size_serialized"}
+DflCases(T, P) == {{}, P \cap DefaultValued}
+
 PresenceCases(T) == LET S == Settable(T) IN {S, {}} \cup {{f} : f \in S} \cup {S \ {f} : f \in S}
 RemovedCases(T, P) ==
   IF T \in Plain THEN {{}}
   ELSE LET onwire == {f \in Settable(T) : f \in P \/ Entry(T, f).kind = "def"} IN {{}, onwire} \cup {{f} : f \in onwire}
 
-Cases == UNION {UNION {{[t |-> "pl", ty |-> T, present |-> P, removed |-> R, foreign |-> F, le |-> e] :
-                           R \in RemovedCases(T, P), F \in (IF T \in Plain THEN {<<>>} ELSE ForeignCases), e \in BOOLEAN}
+Cases == UNION {UNION {{[t |-> "pl", ty |-> T, present |-> P, dfl |-> D, removed |-> R, foreign |-> F, le |-> e] :
+                           R \in RemovedCases(T, P), F \in (IF T \in Plain THEN {<<>>} ELSE ForeignCases), e \in BOOLEAN,
+                           D \in DflCases(T, P)}
                         : P \in PresenceCases(T)} : T \in Types}
 
 Init == cs = [t |-> "none"]
